@@ -205,6 +205,11 @@ class RecordingAdapter(InternalAsyncioAdapter):
         self._rec.log({"e": "pub", "p": p_pub(event), "live": self._rec.live_now()})
         await super().write_to_event_stream(event)
 
+    async def get_now(self):
+        v = await super().get_now()
+        self._rec.last_now = v           # the clock value the runner hands to the reducer
+        return v
+
     async def send_event(self, tick):
         self._rec.log({"e": "send_int", "tick": p_tick(tick)})
         await super().send_event(tick)
@@ -297,7 +302,7 @@ class EngineSystem:
     # ---- recording hooks
     def on_tick(self, adapter, tick):
         import time as _t
-        rec = {"e": "tick", "tick": p_tick(tick), "now": ms(_t.monotonic()), "pubs": []}
+        rec = {"e": "tick", "tick": p_tick(tick), "now": ms(getattr(self, "last_now", _t.monotonic())), "pubs": []}
         self._cur_tick = rec
         runner = _RUNNERS.get(adapter.run_id)
         if runner is not None:
